@@ -589,6 +589,7 @@ func (st *Runtime) executeList(list *ListNode) (returnValue reflect.Value) {
 func (st *Runtime) executeTry(try *TryNode) (returnValue reflect.Value) {
 	writer := st.Writer
 	buf := new(bytes.Buffer)
+	scope, context, content := st.scope, st.context, st.content
 
 	defer func() {
 		r := recover()
@@ -597,7 +598,10 @@ func (st *Runtime) executeTry(try *TryNode) (returnValue reflect.Value) {
 		if r == nil {
 			io.Copy(writer, buf)
 		} else {
-			// st.Writer is already set to its original value since the later defer ran first
+			// st.Writer is already set to its original value since the later defer ran first;
+			// scopes, context and content pushed by the constructs the panic unwound
+			// through (range, if with assignment, yield) were not popped, so restore them too
+			st.scope, st.context, st.content = scope, context, content
 			if try.Catch != nil {
 				if try.Catch.Err != nil {
 					st.newScope()
